@@ -135,10 +135,22 @@ def _sw_ok_ensures(pre, post):
     j = t.var('j!', t.INT)
     kept = t.forall([j], t.implies(t.and_(t.le(t.ZERO, j), t.lt(j, t.imin(o.pos, o.len))), t.eq(t.select(o2.buf, j), t.select(o.buf, j))),
                     pats=[[t.select(o2.buf, j)]])
-    return [('data-written-at-position', written, F),
-            ('earlier-bytes-kept', kept, F),
-            ('position-advances-by-length', t.eq(o2.pos, t.add(o.pos, n)), F),
-            ('length-extends', t.eq(o2.len, t.ite(t.gt(n, t.ZERO), t.imax(o.len, t.add(o.pos, n)), o.len)), F)]
+    out = [('data-written-at-position', written, F),
+           ('earlier-bytes-kept', kept, F),
+           ('position-advances-by-length', t.eq(o2.pos, t.add(o.pos, n)), F),
+           ('length-extends', t.eq(o2.len, t.ite(t.gt(n, t.ZERO), t.imax(o.len, t.add(o.pos, n)), o.len)), F)]
+    # derived: every specification function reads the same value from the written region as from the data (congruence lemmas)
+    from .specs import cong_instance
+    d = pre['data']
+    if isinstance(d, VBytes):
+        darr, doff = d.arr, d.off
+    else:
+        darr, doff = t.app('barr', t.ARR, d.t), t.app('boff', t.INT, d.t)
+    for fn in ('be_val', 'le_val', 'bits_val', 'val7'):
+        out.append(('written-region-has-same-%s-as-data' % fn,
+                    t.eq(t.app(fn, t.INT, o2.buf, o.pos, t.add(o.pos, n)), t.app(fn, t.INT, darr, doff, t.add(doff, n))), F,
+                    [cong_instance(fn, o2.buf, o.pos, darr, doff, n)]))
+    return out
 
 
 register(FnContract(
